@@ -292,3 +292,45 @@ PROPS["C01"] = dict(
     trusted_base=BASE + ["contracts/buffer_model.py, contracts/quic_builder.py (callee contracts proved under C17 / C13)"],
     assumptions=[A2, "recovery-layer caller preconditions (fresh packet numbers, well-formed spaces) and opaque delivery callbacks as stated in the C08 evidence"],
 )
+
+# ---------------------------------------------------------------------------------------------------------------- C20
+LOGQ = "quic/logger.py::QuicLoggerTrace."
+C20_T = "T (typing): inside logger-guarded blocks and in the encoders, names and attribute chains denote values of their declared types (parameter / field annotations, .pyi stubs of the C extensions); reading an attribute of such a value does not raise, +,-,* on declared numbers and len() of declared sized values are total"
+C20_SFA = "syntactic frame analysis (engine/logblocks.py, written for this property): a conservative AST / dataflow analysis of the current source - block enumeration, grammar of total and effect-free forms, definite assignment, by-name call resolution over EVERY same-named definition in the package, declared-type-directed JSON shape inference; its verdicts are reported as obligations with goal True/False (no SMT reasoning); its own correctness is part of the trusted base (kill-checked with 61 mutants)"
+C20_SINKS = "logger API: QuicLogger.start_trace / end_trace (incl. QuicFileLogger.end_trace: json.dump to a file) and the secrets log file's write()/flush() are assumed total and to write only the logger's / file's own state"
+C20_REFLECT = "no reflective access to logger-owned state (getattr / __dict__ / vars by string): occurrences are found by NAME tokens"
+C20_ENC = ("encode_connection_limit_frame encode_crypto_frame encode_data_blocked_frame encode_datagram_frame encode_max_stream_data_frame encode_new_connection_id_frame encode_new_token_frame "
+           "encode_reset_stream_frame encode_retire_connection_id_frame encode_stream_data_blocked_frame encode_stop_sending_frame encode_stream_frame encode_streams_blocked_frame encode_http3_data_frame "
+           "encode_path_challenge_frame encode_path_response_frame packet_type log_event _encode_http3_headers").split()
+PROPS["C20"] = dict(
+    functions=["logblocks::quic/connection.py", "logblocks::quic/recovery.py", "logblocks::quic/packet_builder.py", "logblocks::h3/connection.py", "logblocks::quic/logger.py", "logblocks::@rest"]
+    + [LOGQ + m + "#c20" for m in C20_ENC],
+    bounded=[],
+    scope="NON-INTERFERENCE, decided per block for EVERY logger-guarded block of quic/connection.py, quic/recovery.py, quic/packet_builder.py, h3/connection.py as the source stands at this run (blocks are enumerated mechanically: "
+    "`if <x>._quic_logger is not None [and <pure>]:`, `if <cfg>.quic_logger:` in __init__, `if secrets_log_file is not None:` in _update_traffic_key; nothing is hand-listed): "
+    "(L1 .frame) the block has no else branch, every statement writes only logger-owned state (the `quic_logger_frames` lists, the trace via log_event, the QuicLogger via start_trace/end_trace, the `_quic_logger` handle itself, the secrets file, "
+    "containers created inside the block), contains no return/break/continue/raise/loop/try/with, binds no local that occurs anywhere else in the function, and every callee (followed by name through all definitions, e.g. "
+    "_log_metrics_updated -> get_log_data of every congestion controller) passes the same analysis and returns a fresh container where its result is mutated; "
+    "(L2 .total) no expression of the block can raise, by a grammar of total forms under the typing assumption T (strict .decode, asserts, division, unknown calls, undecided subscripts, possibly-unbound names are rejected); "
+    "(L3 .json) every value handed to a sink - log_event category/event/data, <..>.quic_logger_frames.append - is JSON-typed (str/int/float/bool/None/list/dict with str keys of those; no bytes, tuples, objects); "
+    "(L4 .outside/.callsites/.inventory/@rest) outside the blocks a logger-owned name occurs only in the guard test, as a keyword argument passed along, in a copy between logger-owned locations / None / [] initialisation, or as a "
+    "declaration; a function that dereferences the handle unguarded (_log_metrics_updated) is called only from inside guarded blocks; no other file of the package mentions these names except the QuicConfiguration field "
+    "declarations; the count of NAME tokens equals the count of classified AST occurrences. "
+    "ENCODERS (every method of QuicLoggerTrace and QuicLogger.to_dict, enumerated from quic/logger.py): writes nothing but containers it creates (log_event: exactly one append to self._events; _events touched nowhere else), "
+    "cannot raise, result JSON-typed (shape inference from the declared parameter / field types; the events list is JSON given the .json obligation of every sink call); and with pyvc/SMT for 19 of them (variants #c20): no "
+    "exception escapes for any argument of the declared types (None dereference, KeyError, UnicodeDecodeError, ZeroDivisionError are explicit escape obligations), no field of any pre-existing object is written (frame=True), "
+    "is_json(result); log_event appends exactly one record, keeps all earlier records and the record is JSON if data is",
+    lemma="paper lemma (stated, not machine-checked): let L be the logger-owned locations. Run A (logger set) and run B (no logger) on equal inputs execute the same statements outside guarded blocks on equal non-L state: by induction over "
+    "execution steps, a step outside a block reads no L location except to pass the object along (L4), so it computes the same values and takes the same branch in both runs; a guarded block is skipped in B and in A "
+    "terminates normally (L2 + encoder totality) at its end (no escaping control flow), having written only L (L1, encoders' frame) and bound no live local - so the non-L states agree again after it. Hence both runs emit the "
+    "same events, put the same frames into packets and end in the same non-L state; 'logging never raises' is L2 + encoder totality; 'the qlog document is serialisable as JSON' is L3 + the encoders' .json + to_dict's .json.",
+    not_decided="(1) KNOWN FINDING: QuicLoggerTrace._encode_http3_headers decodes header names/values with the strict utf-8 handler - UnicodeDecodeError for non-UTF-8 header bytes on both the send_headers and the receive path (refuted by "
+    "both back ends, reproduced natively; fix in tools/fixes/c20_h3_headers_non_utf8.patch). (2) 'one packet record per packet sent and received' (counting clause) is not decided: the packet_sent / packet_received blocks are shown "
+    "to be present, total and transparent, not that exactly one is executed per packet. (3) totality rests on the typing assumption T: an attribute read on an Optional receiver that is None inside a block (e.g. "
+    "<ctx>.quic_logger_frames being None while _quic_logger is set, self.tls before _initialize) is not excluded here - the other sidecars assume `_quic_logger is None or <..>.quic_logger_frames is not None` at their entries. "
+    "(4) QuicFileLogger (file output), QuicLogger.start_trace/end_trace, the secrets file's write/flush: trusted sinks. (5) float NaN/inf are emitted by json.dumps as non-standard tokens (not a raise). "
+    "(6) encode_ack_frame, encode_transport_parameters, encode_connection_close_frame, to_dict, QuicLogger.to_dict, encode_http3_headers_frame / push_promise_frame and the homogeneous one-line encoders are covered by the syntactic "
+    "analysis only (RangeSet iteration, __dict__ iteration, stores into heterogeneous dict displays are outside pyvc's subset; a homogeneous display leaves pyvc nothing to prove)",
+    trusted_base=BASE + [C20_SFA, C20_T, C20_SINKS, C20_REFLECT, "stdlib stubs: time.time (total), binascii.hexlify (total on bytes, ASCII result), bytes.decode / bytes.hex semantics as documented in engine/pyvc/calls.py value_method"],
+    assumptions=[C20_T, C20_SINKS, C20_REFLECT],
+)
